@@ -1583,6 +1583,90 @@ fn nest_continues(stmts: &mut Vec<Stmt>, sites: &mut BTreeMap<String, usize>) {
     }
 }
 
+fn only_return(b: &Block) -> Option<Option<Expr>> {
+    if b.stmts.len() == 1 {
+        if let Stmt::Expr(Expr::Return(r), _) = &b.stmts[0] {
+            return Some(r.expr.as_ref().map(|e| (**e).clone()));
+        }
+    }
+    None
+}
+
+/// T19: at the statement level of a function body (and of the nested "rest" blocks it creates)
+///   `if C { return; } REST`                      ->  `if !(C) { REST }`                     (unit function)
+///   `if C { return X; } REST`                    ->  `if C { X } else { REST }`
+///   `let P = E else { return; }; REST`           ->  `if let P = E { REST }`                (unit function)
+///   `let P = E else { return X; }; REST`         ->  `if let P = E { REST } else { X }`
+///   a trailing `return X;`                       ->  `X`
+fn nest_returns_in(stmts: &mut Vec<Stmt>, unit_fn: bool, sites: &mut BTreeMap<String, usize>) {
+    // trailing `return X;` / `return;`
+    if let Some(Stmt::Expr(Expr::Return(r), _)) = stmts.last() {
+        let rep: Option<Expr> = r.expr.as_ref().map(|e| (**e).clone());
+        stmts.pop();
+        if let Some(x) = rep {
+            stmts.push(Stmt::Expr(x, None));
+        }
+        *sites.entry("T19-nest-return".into()).or_insert(0) += 1;
+    }
+    let mut i = 0;
+    while i < stmts.len() {
+        let mut replacement: Option<Stmt> = None;
+        match &stmts[i] {
+            Stmt::Expr(Expr::If(iff), _) if iff.else_branch.is_none() => {
+                if let Some(ret) = only_return(&iff.then_branch) {
+                    let mut rest: Vec<Stmt> = stmts[i + 1..].to_vec();
+                    nest_returns_in(&mut rest, unit_fn, sites);
+                    let c = &iff.cond;
+                    match ret {
+                        None if unit_fn => {
+                            let e: Expr = parse_quote!(if !(#c) { #(#rest)* });
+                            replacement = Some(Stmt::Expr(e, None));
+                        }
+                        Some(x) if !rest.is_empty() => {
+                            let e: Expr = parse_quote!(if #c { #x } else { #(#rest)* });
+                            replacement = Some(Stmt::Expr(e, None));
+                        }
+                        _ => {}
+                    }
+                }
+            }
+            Stmt::Local(l) if !matches!(l.pat, Pat::Type(_)) => {
+                if let Some(init) = &l.init {
+                    if let Some((_, els)) = &init.diverge {
+                        if let Expr::Block(eb) = &**els {
+                            if let Some(ret) = only_return(&eb.block) {
+                                let mut rest: Vec<Stmt> = stmts[i + 1..].to_vec();
+                                nest_returns_in(&mut rest, unit_fn, sites);
+                                let pat = &l.pat;
+                                let ex = &init.expr;
+                                match ret {
+                                    None if unit_fn => {
+                                        let e: Expr = parse_quote!(if let #pat = #ex { #(#rest)* });
+                                        replacement = Some(Stmt::Expr(e, None));
+                                    }
+                                    Some(x) if !rest.is_empty() => {
+                                        let e: Expr = parse_quote!(if let #pat = #ex { #(#rest)* } else { #x });
+                                        replacement = Some(Stmt::Expr(e, None));
+                                    }
+                                    _ => {}
+                                }
+                            }
+                        }
+                    }
+                }
+            }
+            _ => {}
+        }
+        if let Some(r) = replacement {
+            stmts.truncate(i);
+            stmts.push(r);
+            *sites.entry("T19-nest-return".into()).or_insert(0) += 1;
+            return;
+        }
+        i += 1;
+    }
+}
+
 fn tail_continue_expr(e: &mut Expr, sites: &mut BTreeMap<String, usize>) {
     match e {
         Expr::Continue(c) if c.label.is_none() => {
@@ -1952,6 +2036,8 @@ fn main() {
         }
     }
 
+    let nest_returns: BTreeSet<String> =
+        job["nest_returns"].as_array().map(|a| a.iter().map(|v| v.as_str().unwrap().to_string()).collect()).unwrap_or_default();
     // rewrite
     let mut out_fns = vec![];
     for f in &selected {
@@ -1984,6 +2070,12 @@ fn main() {
         };
         let _ = rw.self_effectful;
         let mut block = f.block.clone();
+        if nest_returns.contains(&f.key) {
+            // T19 (only on request, for a function about to be inlined into its callers): guard-style early returns become
+            // the equivalent nesting, so that the body is a plain block
+            let unit_fn = matches!(f.sig.output, ReturnType::Default);
+            nest_returns_in(&mut block.stmts, unit_fn, &mut rw.sites);
+        }
         let empty_assoc = BTreeMap::new();
         let assoc_here = match (&f.trait_name, &f.impl_type) {
             (Some(tn), Some(ty)) => c.trait_impls.iter().find(|t| &t.trait_name == tn && &t.type_name == ty).map(|t| &t.assoc).unwrap_or(&empty_assoc),
